@@ -3,7 +3,7 @@
    logic on the model (Model/GenOrder.v): which entry of the file's message-type table a message uses, and which
    descriptor the md_ look-up chain selects. Registry coherence, getters, Reset, String and enum methods are behaviour
    of protobuf-go and of the embedded protoc-gen-go templates, observed by the desc engine on every linked package. *)
-From CP Require Import Bytes GenNames GenOrder GenNamesProofs GenOrderProofs.
+From CP Require Import Bytes GenNames GenOrder GenDeps GenNamesProofs GenOrderProofs GenDepsProofs.
 Local Open Scope N_scope.
 
 (* NewFileInfo's accumulator walk yields filetype.TypeBuilder's documented "flattened ordering" of the messages, so the
@@ -25,9 +25,41 @@ Proof. exact GenOrderProofs.descriptor_paths. Qed.
 Theorem descriptor_vars_distinct : forall k1 k2, key_ok k1 -> key_ok k2 -> ident_of k1 = ident_of k2 -> k1 = k2.
 Proof. exact GenNamesProofs.ident_of_inj. Qed.
 
+(* genReflectFileDescriptor's tables (Model/GenDeps.v is the generator's state machine: `seen` map, goTypes, depIdxs):
+   for each of the five dependency sub-lists of filetype.TypeBuilder.DependencyIndexes (k = 0 field type_name, 1 extension
+   extendee, 2 extension type_name, 3 method input_type, 4 method output_type), entry i, counted from the sub-list's start
+   offset, is the index in goTypes of the type named by the i-th message/enum-typed field (extension, method input, method
+   output) of the file, and goTypes holds that very type there — for every file *)
+Theorem dep_indexes_resolve : forall f k R o i n,
+  nth_error (sublists f) k = Some R -> nth_error (offsets f) k = Some o -> nth_error R i = Some n ->
+  nth_error (depIdxs (gen_tables f)) (N.to_nat o + i) = Some (pos (goTypes (gen_tables f)) n) /\
+  nth_error (goTypes (gen_tables f)) (N.to_nat (pos (goTypes (gen_tables f)) n)) = Some n.
+Proof. exact GenDepsProofs.dep_indexes_resolve. Qed.
+
+(* the whole depIdxs table: the five sub-lists back to back, then their start offsets in reverse order; and goTypes is
+   the de-duplicated list of declarations followed by dependencies in first-use order *)
+Theorem dep_table_layout : forall f,
+  goTypes (gen_tables f) = fold_left declare (all_names f) [] /\
+  depIdxs (gen_tables f) = map (pos (goTypes (gen_tables f))) (concat (sublists f)) ++ rev (offsets f).
+Proof. exact GenDepsProofs.tables_closed_form. Qed.
+
+(* declarations come first (enums, then messages, both in flattened order), every type once, nothing else *)
+Theorem go_types_layout : forall f, NoDup (all_enums f ++ map dm_full (all_messages f)) ->
+  (exists deps, goTypes (gen_tables f) = all_enums f ++ map dm_full (all_messages f) ++ deps) /\
+  NoDup (goTypes (gen_tables f)) /\ (forall n, In n (goTypes (gen_tables f)) <-> In n (all_names f)).
+Proof. exact GenDepsProofs.go_types_layout. Qed.
+
 Local Open Scope byte_scope.
 Example flatten_example :
   let t := [MT ["A"] [MT ["B"] [MT ["D"] []]; MT ["C"] []]; MT ["E"] []] in
   flatten_gen t = [[["A"]]; [["E"]]; [["A"]; ["B"]]; [["A"]; ["C"]]; [["A"]; ["B"]; ["D"]]] /\
   msg_index t [["A"]; ["B"]; ["D"]] = Some 4 /\ wf_forest t = true.
 Proof. vm_compute. repeat split; reflexivity. Qed.
+
+Example dep_example :
+  let a := ["A"] in let b := ["B"] in let e := ["E"] in let x := ["X"] in
+  let f := {| df_enums := [e]; df_exts := [];
+              df_msgs := [DM a [] [] [Some b; None; Some e; Some x] []; DM b [] [] [Some a] []];
+              df_services := [[ {| me_in := a; me_out := b |} ]] |} in
+  goTypes (gen_tables f) = [e; a; b; x] /\ depIdxs (gen_tables f) = [2; 0; 3; 1; 1; 2; 5; 4; 4; 4; 0].
+Proof. vm_compute. split; reflexivity. Qed.
